@@ -126,7 +126,7 @@ def store_monitor(sc, impl_lines, spec_lines):
 
 def suite_store(ctx, can_run_model):
     rng = random.Random(ctx.seed * 1000003 + 17)
-    n = ctx.scale(400, 20000)
+    n = ctx.scale(1500, 40000)
     scs = load_corpus("STORE") if not ctx.widen else []
     for j in range(n):
         malformed = (j % 10 == 9)
